@@ -232,6 +232,12 @@ def run_shard(shard, ctx):
                                     ctx.fail("truncated_pdf.integrate_x", "value", value=gx - mean[r], facts=f3)
                                 if not abs(gv - var[r]) <= 1e-8 * (mu[r] ** 2 + sg[r] ** 2) / frac[r]:
                                     ctx.fail("truncated_pdf.variance", "value", value=gv - var[r], facts=f3)
+                                gs = float(np.asarray(tp.get_std())[r, 0])
+                                if var[r] > 1e-12 and not abs(gs - np.sqrt(var[r])) <= 1e-8 * (abs(mu[r]) + sg[r]) / frac[r] / max(np.sqrt(var[r]) / sg[r], 1e-3):
+                                    ctx.fail("truncated_pdf.std", "value", value=gs - float(np.sqrt(var[r])), facts=f3)
+                                g2 = float(np.asarray(tp.integrate("x**2"))[r, 0])
+                                if not abs(g2 - (var[r] + mean[r] ** 2)) <= 1e-8 * (mu[r] ** 2 + sg[r] ** 2) / frac[r]:
+                                    ctx.fail("truncated_pdf.integrate_x2", "value", value=g2 - (var[r] + mean[r] ** 2), facts=f3)
                             ctx.count("comparisons", 3)
                             for r in range(R):
                                 a, b = lo[r, 0], hi[r, 0]
